@@ -1259,7 +1259,9 @@ fn main() {
     run.set("seeds", json!(sd.iter().map(|s| format!("{}:{} ({} bytes{})", s.entry, s.name, s.bytes.len(), if s.byte_level { ", byte-level" } else { "" })).collect::<Vec<_>>()));
     run.set("family_cases", json!(fam.len()));
     let mut cases: Vec<Case> = vec![];
+    // (no second copy of the descriptors is kept: a failing case carries its descriptor in `Case::input`)
     let mut meta: Vec<Value> = vec![];
+    let mut sample_desc: Option<Value> = None;
     let mut hashes: HashSet<u64> = HashSet::new();
     let mut dup = 0u64;
     let mut repaired = 0u64;
@@ -1272,7 +1274,10 @@ fn main() {
             return;
         }
         cases.push(Case { id: cases.len() as u64, entry: "x", input: case_input(&desc), logical_len: bytes.len().max(1) });
-        meta.push(desc);
+        if cases.len() % 200_003 == 1 {
+            sample_desc = Some(desc);
+        }
+        let _ = &meta;
     };
     for (si, s) in sd.iter().enumerate() {
         let mut edits: Vec<Vec<Edit>> = vec![vec![]];
@@ -1318,10 +1323,13 @@ fn main() {
     run.set("mutant_cases", json!(n_mutants));
     run.set("duplicate_mutants_skipped", json!(dup));
     run.set("mutants_with_repaired_cross_reference_table", json!(repaired));
-    run.sample(json!({"kind": "mutant", "descriptor": meta[n_mutants / 2], "seed": sd[meta[n_mutants / 2]["s"].as_u64().unwrap() as usize].name}));
+    if let Some(d) = &sample_desc {
+        run.sample(json!({"kind": "mutant or family case", "descriptor": d}));
+    }
+    let _ = n_mutants;
     run.sample(json!({"kind": "family", "label": fam[fam.len() / 2].1, "entry": fam[fam.len() / 2].0}));
     let outcomes: Mutex<BTreeMap<String, u64>> = Mutex::new(BTreeMap::new());
-    let failures: Mutex<Vec<(u64, Outcome)>> = Mutex::new(vec![]);
+    let failures: Mutex<Vec<(Vec<u8>, Outcome)>> = Mutex::new(vec![]);
     let n_workers = std::thread::available_parallelism().map(|n| n.get()).unwrap_or(8);
     let wargs: Vec<String> = if run.thorough { vec!["--thorough-families".to_string()] } else { vec![] };
     worker::run_cases(cases, n_workers, &wargs, &|c, o| {
@@ -1333,15 +1341,16 @@ fn main() {
         let k = if o.class == Class::Returned { if o.detail.starts_with("ok") { "returned-ok".to_string() } else if trivial { "returned-trivial-error".to_string() } else { "returned-error".to_string() } } else { format!("{:?}", o.class) };
         *outcomes.lock().unwrap().entry(k).or_insert(0) += 1;
         if o.class != Class::Returned {
-            failures.lock().unwrap().push((c.id, o.clone()));
+            failures.lock().unwrap().push((c.input.clone(), o.clone()));
         }
     });
     run.set("outcomes_by_class", json!(outcomes.lock().unwrap().clone()));
     // confirm each failure in a fresh worker (must reproduce the same class), then report
     let fl = failures.lock().unwrap().clone();
     let mut sites: BTreeMap<String, u64> = BTreeMap::new();
-    for (cid, o) in fl {
-        let desc = &meta[cid as usize];
+    for (input, o) in fl {
+        let desc: Value = serde_json::from_slice(&input).expect("descriptor");
+        let desc = &desc;
         let (entry, bytes) = materialise(desc);
         let again = worker::run_single(&Case { id: 0, entry: "x", input: case_input(desc), logical_len: bytes.len().max(1) }, &wargs);
         if again.class != o.class {
